@@ -8,6 +8,16 @@ starting rate is the largest of them (RegroupStart), so no input is offered less
 (RegroupNoDecrease) - executed through the real UtxoSweeper.markInputsPublishFailed /
 markInputsPendingPublish, BudgetAggregator.ClusterInputs and BudgetInputSet.
 
+The sweeper layer above the publisher: every request is built by the REAL UtxoSweeper
+(updateSweeperInputs + sweepPendingInputs -> sweep) from its configuration (sweeper.maxfeerate in
+sat/vb) and the input set; the Req line records both sides and the spec requires the request to carry
+the configured maximum (250 sat/kw per sat/vb), the sum of the input budgets and the inputs' deadline
+(SweepMaxIsConfigured / SweepBudgetIsInputs / SweepDeadlineIsInputs), and states the property against
+the configuration (PubRateLeCfgMax, PubFeeLeInputBudget).  The input universe includes inputs with
+unconfirmed-parent info (the anchor that CPFPs a force close; parent below / inside / above the ramp)
+next to required outputs and wallet top-ups, and the fee-rate clauses are judged on the ACTUAL tx handed
+to the wallet (fee = inputs - outputs over the sweep tx's own weight): TxRateLeCfgMax, TxPaysOfferedRate.
+
   (a) exhaustive TLC: fee function grids (all walks of Increment/IncreaseFeeRate with skipping,
       repeating, increasing conf targets), publisher grids (budgets around the fee thresholds of a
       weight below/above 2000 wu, MaxFeeRate below/above the budget rate, change above/below dust,
@@ -74,9 +84,9 @@ def consts(dec):
 
 
 def brief(r):
-    keys = ("a", "maxrate", "ct", "sopt", "est", "relay", "budget", "weight", "totalin", "reqout", "dust", "deadline",
+    keys = ("a", "cfgvb", "maxrate", "ct", "sopt", "est", "relay", "budget", "weight", "totalin", "reqout", "dust", "deadline",
             "height", "maxallowed", "start", "end", "width", "pos", "cur", "delta", "inc", "err", "rate", "fee",
-            "change", "ans", "event")
+            "change", "ans", "event", "budgets", "deadlines", "parents")
     return {k: r.get(k) for k in keys
             if (r.get(k) not in (0, "", None, [], "none") and not (k == "sopt" and r.get(k) == -1)
                 and not (k == "weight" and r.get(k) == 1)) or k == "a"}
@@ -166,13 +176,24 @@ def decide(ck, directed):
 
 
 # ---------------------------------------------------------------------------------------------- (d)
-def controls(ck, recs, dec, tag):
+def enumerate_traces(recs):
+    a = 0
+    for tr in split_traces(recs):
+        yield a, tr
+        a += len(tr)
+
+
+def controls(ck, recs, dec, tag, need_parent=True):
     """corrupt one recorded value of an accepted batch: the validator must reject it."""
     done = []
     for field, pick in (("cur", lambda r: r.get("a") in ("Inc", "Bump") and r.get("inc") == 1
                          and (r["delta"] * r["pos"]) % 1000 != 500),      # not at a tie: +1 is never allowed
                         ("fee", lambda r: r.get("a") == "Pub" and r.get("ans") == "ok"),
-                        ("maxallowed", lambda r: r.get("a") == "Init" and r.get("live") == 1)):
+                        ("maxallowed", lambda r: r.get("a") == "Init" and r.get("live") == 1),
+                        # the sweeper layer: the request's MaxFeeRate / the configured maximum / one input's budget
+                        ("maxrate", lambda r: r.get("a") == "Req" and r.get("cfgvb", 0) > 0),
+                        ("cfgvb", lambda r: r.get("a") == "Req" and r.get("cfgvb", 0) > 0),
+                        ("budget", lambda r: r.get("a") == "Req" and r.get("cfgvb", 0) > 0)):
         cands = [i for i, r in enumerate(recs) if pick(r)]
         if not cands:
             continue
@@ -189,8 +210,46 @@ def controls(ck, recs, dec, tag):
                                % (field, recs[i].get("a")))
         done.append(dict(mutation="%s+1 on %s line %d" % (field, recs[i].get("a"), i + 1),
                          rejected_by=v["invariant"], at_line=v["line"]))
+    # the input universe: a tx that pays the offered rate over parent + own weight (minus the parent's fee)
+    # instead of over its own weight
+    par = None
+    for tr_a, tr in enumerate_traces(recs):
+        rq = next((r for r in tr if r.get("a") == "Req" and r.get("parents")), None)
+        if not rq:
+            continue
+        pw, pf = sum(x[0] for x in rq["parents"]), sum(x[1] for x in rq["parents"])
+        for k, r in enumerate(tr):
+            extra = r.get("rate", 0) * pw // 1000 - pf
+            if r.get("a") == "Pub" and r.get("ans") == "ok" and 0 < extra < r.get("change", 0) - 1000 \
+                    and r["fee"] + extra <= rq["budget"]:
+                par = (tr, k, extra)
+                break
+        if par:
+            break
+    if par:
+        tr, k, extra = par
+        bad = copy.deepcopy(tr)
+        for j in (k - 1, k):                      # the Check and the Pub line of that tx
+            if bad[j].get("a") in ("Check", "Pub"):
+                bad[j]["fee"] += extra
+                bad[j]["change"] -= extra
+                bad[j]["outs"] = [[o[0] - extra, o[1]] if o[0] == tr[j]["change"] else o for o in bad[j]["outs"]]
+        p = os.path.join(ck.out, "control_%s_parentfee.ndjson" % tag)
+        core.write_ndjson(p, bad)
+        v = ck.validate(SPEC, "SweepFeeTrace", "SweepFeeTrace.cfg", p, constants=consts(dec),
+                        name="control_%s_parentfee" % tag)
+        if v["ok"]:
+            raise Inconclusive("negative control accepted (fee over parent + own weight): the tx-level invariants "
+                               "are not binding")
+        done.append(dict(mutation="fee += rate*parent_weight/1000 - parent_fee (%d sat) on the Check/Pub lines of a tx "
+                                  "whose request carries unconfirmed-parent info" % extra,
+                         rejected_by=v["invariant"], at_line=v["line"]))
+    elif need_parent:
+        raise Inconclusive("no published tx with unconfirmed-parent info in %s: the input universe is not exercised" % tag)
     if len(done) < 2:
         raise Inconclusive("not enough material for the negative controls in %s" % tag)
+    if need_parent and not any(d["mutation"].startswith("maxrate+1") for d in done):
+        raise Inconclusive("no request line for the sweeper-layer negative control in %s" % tag)
     ck.cov.setdefault("negative_controls", []).extend(done)
 
 
@@ -198,9 +257,14 @@ def stats(ck, recs):
     st = ck.cov.setdefault("stats", dict(fee_functions=0, requests=0, txs_checked=0, txs_published=0, delta_ties=0,
                                          rate_ties=0, budget_rate_ties=0, top_ups=0, required_outputs=0,
                                          dust_absorbed=0, max_width=0, max_rate=0, regrouped_with_prev_rates=0,
-                                         regrouped_largest_not_last=0))
+                                         regrouped_largest_not_last=0, built_by_real_sweeper=0,
+                                         cfg_max_binding=0, unconf_parent=0, unconf_parent_below_end=0,
+                                         unconf_parent_above_end=0, unconf_parent_txs_published=0))
+    withparent = False
     for r in recs:
         a = r.get("a")
+        if a in ("Reset", "New"):
+            withparent = False
         if a in ("New", "Init") and r.get("live") == 1:
             st["fee_functions"] += 1
             st["max_width"] = max(st["max_width"], r["width"])
@@ -216,6 +280,14 @@ def stats(ck, recs):
             st["regrouped_with_prev_rates"] += 1 if nz else 0
             st["regrouped_largest_not_last"] += 1 if nz and nz[-1] != max(nz) else 0
             st["top_ups"] += 1 if r.get("wallet") else 0
+            st["built_by_real_sweeper"] += 1 if r.get("cfgvb") else 0
+            st["cfg_max_binding"] += 1 if 250 * r.get("cfgvb", 0) < r["budget"] * 1000 // r["weight"] else 0
+            withparent = bool(r.get("parents"))
+            if withparent:
+                st["unconf_parent"] += 1
+                pw, pf = sum(x[0] for x in r["parents"]), sum(x[1] for x in r["parents"])
+                end = min(250 * r.get("cfgvb", 0), r["budget"] * 1000 // r["weight"])
+                st["unconf_parent_below_end" if pf * 1000 // max(pw, 1) < end else "unconf_parent_above_end"] += 1
             st["required_outputs"] += 1 if r.get("reqout") else 0
             if (2000 * r["budget"]) % (2 * r["weight"]) == r["weight"]:
                 st["budget_rate_ties"] += 1
@@ -223,6 +295,7 @@ def stats(ck, recs):
             st["txs_checked"] += 1
         if a == "Pub" and r.get("ans") == "ok":
             st["txs_published"] += 1
+            st["unconf_parent_txs_published"] += 1 if withparent else 0
             if r.get("change") == 0:
                 st["dust_absorbed"] += 1
 
@@ -257,11 +330,13 @@ def run(ck):
     if res["rc"] != 0 or not os.path.exists(tpath) or not os.path.exists(fpath):
         raise Inconclusive("executor failed:\n" + res["out"][-4000:])
     replay, free = core.read_ndjson(tpath), core.read_ndjson(fpath)
-    directed, generated = {}, []
+    directed, dirx, generated = {}, [], []
     for tr in split_traces(replay):
         fn = os.path.basename(tr[0].get("file", ""))
         if fn.startswith("b_directed_d_"):
             directed[fn[len("b_directed_"):-7]] = tr
+        elif fn.startswith("b_directed_x_"):
+            dirx += tr                  # scenario witnesses of each part: validated first
         else:
             generated += tr
     ck.cov["evaluations"] += sum(1 for r in replay + free if not is_reset(r))
@@ -279,7 +354,7 @@ def run(ck):
 
     # ------------------------------------------------------------ (c) validation
     nviol = 0
-    for tag, recs in (("generated", generated), ("free", free)):
+    for tag, recs in (("directed", dirx), ("generated", generated), ("free", free)):
         stats(ck, recs)
         batches = core.split_batches(recs, is_reset, max_bytes=12_000_000)
         for k, batch in enumerate(batches):
@@ -292,12 +367,13 @@ def run(ck):
             else:
                 nviol += 1
                 report(ck, v, batch, "%s behaviours" % tag, dec)
-        if nviol == 0:
+        if nviol == 0 and tag != "directed":
             controls(ck, recs, dec, tag)
     distinct = set()
-    for tr in split_traces(generated) + split_traces(free):
+    for tr in split_traces(dirx) + split_traces(generated) + split_traces(free):
         distinct.add(core.sha(str([(r.get("a"), r.get("ct"), r.get("height"), r.get("ans"), r.get("maxrate"), r.get("sopt"),
-                                   r.get("est"), r.get("budget"), r.get("weight"), r.get("totalin"), r.get("cur"))
+                                   r.get("est"), r.get("budget"), r.get("weight"), r.get("totalin"), r.get("cur"),
+                                   r.get("cfgvb"), str(r.get("parents")))
                                   for r in tr[1:]])))
     ck.cov["distinct_nontrivial"] += len(distinct)
     ck.cov["traces_validated_against_impl"] += len(directed)
@@ -306,13 +382,20 @@ def run(ck):
     ck.cov["rule"] = ("a case = one fee function or one bump request with its whole history (conf target walk / blocks, "
                       "mempool and publish answers, retries); generated by TLC -simulate from SweepFeeGen (main domain) "
                       "or by the seeded free-running driver (rates up to 2*10^6 sat/kw, conf targets 0..1011, 1..40 "
-                      "inputs through the real BudgetAggregator/BudgetInputSet with wallet top-ups); distinct = distinct "
+                      "inputs through the real UtxoSweeper.sweepPendingInputs/sweep, BudgetAggregator/BudgetInputSet with "
+                      "wallet top-ups, required outputs and anchors carrying unconfirmed-parent info; configured maxima "
+                      "10..7600 sat/vb); distinct = distinct "
                       "(action, argument, answer, resulting rate) sequences; every case has >= 1 call on the real code")
     ck.cov["trusted_base"] = ["TLC 1.8.0", "CommunityModules Json",
                               "executor projection (fee function fields, tx inputs/outputs/values, dust limit per output "
                               "via lnwallet.DustLimitForSize, error class via errors.Is)",
                               "executor glue: handleInitialBroadcast/initializeTx unrolled into their 4 calls to attach the "
                               "logging fee function wrapper",
+                              "executor glue: the sweeper's collector round is updateSweeperInputs + sweepPendingInputs called "
+                              "directly; its Publisher captures the BumpRequest, which is then given to the real TxPublisher "
+                              "(storeInitialRecord); per-input budgets/deadlines/previous rates are field copies of the set",
+                              "weight of a sweep tx = sweep.calcSweepTxWeight (the estimator's upper bound the code itself uses; "
+                              "mock signatures make the serialized size meaningless)",
                               "float64 analysis: error < 1e-5 for rates <= 2e6 sat/kw, so only exact .5 ties are ambiguous"]
     ck.assumptions += [
         "mock wallet/signer/estimator: mempool and publish answers are scripted environment; signatures are not checked",
@@ -323,5 +406,9 @@ def run(ck):
         "'fee rate' of a published tx is the rate it was built at; a sub-dust change that is added to the fee "
         "(< dust limit, fee still <= budget) is modelled as AbsorbDust and bounded by PubFeeExact",
         "rates <= 2*10^6 sat/kw, budgets <= 1900 sat/wu (TLC 32-bit integers; arithmetic restated to stay below 2^31)",
-        "aux sweeper (extra outputs/budget), unconfirmed parents (CPFP) and locktimes are not exercised",
+        "aux sweeper (extra outputs/budget) and locktimes are not exercised; at most one input with unconfirmed-parent "
+        "info per request (anchor sweeps are exclusive groups); all inputs of a request carry the same deadline "
+        "(inputs without a deadline get theirs in handleNewInput, which is not driven)",
+        "1 sat/vb = 250 sat/kw (chainfee.SatPerVByte.FeePerKWeight) is the unit conversion the spec states for "
+        "sweeper.maxfeerate",
     ]
